@@ -19,7 +19,10 @@ class InnerSubscription(abc.DisposableBase):
         self.lock = threading.RLock()
 
     def dispose(self) -> None:
-        with self.lock:
+        # The subject updates its observer list under its own lock; removing
+        # the observer under the same lock keeps the membership test and the
+        # removal atomic with respect to a concurrent on_error/on_completed.
+        with self.lock, self.subject.lock:
             if not self.subject.is_disposed and self.observer:
                 if self.observer in self.subject.observers:
                     self.subject.observers.remove(self.observer)
